@@ -295,7 +295,13 @@ func runEpisode(t *rapid.T, w *world, label string, hk *hook) epResult {
 			fs = w.genFork(t, lbl, j, m, w.g[refH].ValidatorSet, num, den, now, drift, refH)
 			fs.salt = label + lbl
 		}
-		forkNotes = append(forkNotes, fmt.Sprintf("%s: heights %d..%d genuineFirst=%v coalition=%s time=%s forgedVals=[%s]", lbl, fs.j, fs.m, fs.genuineFirst, fs.coal, fs.timeMode, describeVals(fs.fv.Set)))
+		forkNotes = append(forkNotes, fmt.Sprintf("%s: heights %d..%d genuineFirst=%v coalition=%s nilRest=%v time=%s forgedVals=[%s]", lbl, fs.j, fs.m, fs.genuineFirst, fs.coal, fs.nilRest, fs.timeMode, describeVals(fs.fv.Set)))
+		if fs.nilRest {
+			cls.add("fork-nil-precommits-of-the-rest")
+			if fs.genuineFirst && (fs.coal == "none" || fs.coal == "low" || fs.coal == "below-level") {
+				cls.add("fork-nil-precommits:small-coalition-on-genuine-set")
+			}
+		}
 		cls.add("fork-coalition:" + fs.coal)
 		cls.add("fork-time:" + fs.timeMode)
 		return w.build(fs, base)
@@ -337,7 +343,7 @@ func runEpisode(t *rapid.T, w *world, label string, hk *hook) epResult {
 		fs := w.genFork(t, "pforkBelow", j, r-1, w.g[j].ValidatorSet, num, den, now, drift, j-1)
 		fs.timeMode = "genuine"
 		fs.salt = label + "below"
-		forkNotes = append(forkNotes, fmt.Sprintf("pfork: heights %d..%d (below the root) genuineFirst=%v coalition=%s", fs.j, fs.m, fs.genuineFirst, fs.coal))
+		forkNotes = append(forkNotes, fmt.Sprintf("pfork: heights %d..%d (below the root) genuineFirst=%v coalition=%s nilRest=%v", fs.j, fs.m, fs.genuineFirst, fs.coal, fs.nilRest))
 		pblocks, platest = overlay(w.g, w.build(fs, gview))
 		calls[0].height = rapid.Int64Range(1, r-1).Draw(t, "pfork.below.call")
 	} else if strings.HasPrefix(pkind, "fork") {
